@@ -228,6 +228,42 @@ def eval_case(ctx: Ctx, c: dict):
                     r3, v3 = outcome(lambda: n.to_digestable(o), hx)
                     if r3 != r:
                         ctx.fail("C01/to_digestable/differs-from-canonical-to_wire", f"to_digestable({labels!r},{origin!r}) -> {r3} vs {r}", rep)
+        # the file-writing path (Name.to_wire(file, compress, origin, canonicalize)), without a table and with
+        # a table that already holds the suffixes of another name: same outcome class as the bytes path, never
+        # more than 255 octets, decodes to the name + origin
+        pad = c.get("pad", 0)
+        prev = None if c.get("prev") is None else [bytes.fromhex(x) for x in c["prev"]]
+        for cmp in (False, True):
+            f = io.BytesIO()
+            f.write(b"\0" * pad)
+            table = None
+            if cmp:
+                table = {}
+                if prev is not None:
+                    dns.name.Name(prev).to_wire(f, table)
+            start = f.tell()
+            rf, _ = outcome(lambda: n.to_wire(f, table, o, canon), lambda x: "")
+            buf = f.getvalue()
+            if rf.startswith("ok"):
+                tbl = ";".join(f"{enc_labels([l.lower() for l in k_.labels])}@{v_}" for k_, v_ in (table or {}).items())
+                rf = f"ok {hx(buf[pad:])} tbl={tbl}"
+            ctx.corr(f"n.towiref {pad} {'none' if prev is None else enc_labels(prev)} {enc_labels(labels)} "
+                     f"{'none' if origin is None else enc_labels(origin)} {int(canon)} {int(cmp)}", rf, c)
+            ctx.count("wiref." + (rf.split(" ")[0] if rf.startswith("ok") else rf.split(" ")[1]) + (".cmp" if cmp else ""))
+            if rf.startswith("FOREIGN"):
+                ctx.fail("C01/to_wire-file/foreign-exception:" + rf.split(" ")[1], f"to_wire(file, {labels!r}, origin={origin!r}) -> {rf}", rep)
+            if rf.split(" ")[0] != r.split(" ")[0] or (not rf.startswith("ok") and rf != r):
+                ctx.fail("C01/to_wire-file/outcome-differs-from-bytes-path",
+                         f"to_wire(file, compress={'table' if cmp else None}) of {labels!r} origin={origin!r}: {rf.split(' tbl=')[0][:80]} but the bytes path gives {r[:80]}", rep)
+            elif rf.startswith("ok"):
+                full = labels if n.is_absolute() else labels + (origin or [])
+                got = ref_decode(buf, start)
+                if sum(len(l) + 1 for l in full) > 255:
+                    ctx.fail("C01/to_wire-file/closure", f"to_wire(file) wrote a name of {sum(len(l) + 1 for l in full)} octets: {labels!r} + {origin!r}", rep)
+                elif got is None or [l.lower() for l in got] != [l.lower() for l in full]:
+                    ctx.fail("C01/to_wire-file/value-differs", f"to_wire(file, compress={'table' if cmp else None}) of {labels!r} origin={origin!r} decodes to {got!r}", rep)
+                elif not cmp and got != ([l.lower() for l in full] if canon else full):
+                    ctx.fail("C01/to_wire-file/value-differs", f"to_wire(file) of {labels!r} origin={origin!r} canonicalize={canon} decodes to {got!r}", rep)
     elif k == "fromwire":
         buf = bytes.fromhex(c["wire"])
         off = c["off"]
@@ -424,6 +460,18 @@ def generate(ctx: Ctx, scale: int, rng):
         if origin is not None and rng.chance(1, 2):
             origin = [bytes(x).swapcase() if rng.chance(1, 2) else bytes(x).upper() for x in origin]
         c = {"kind": "wireo", "labels": hexl(ls), "origin": None if origin is None else hexl(origin), "canon": rng.below(2)}
+        if rng.chance(2, 3):
+            full = ls if (ls and ls[-1] == b"") else ls + (origin or [])
+            m = rng.below(3)
+            if m == 0 and len(full) > 1:
+                prev = full[rng.below(len(full) - 1):]
+            elif m == 1:
+                prev = [bytes(x).swapcase() for x in full]
+            else:
+                prev = gen_labels(rng, absolute=True, budget=40)
+            if wf(prev) and prev and prev[-1] == b"":
+                c["prev"] = hexl(prev)
+            c["pad"] = rng.choice([0, 0, 12, 0x3FF0, 0x3FFE, 0x3FFF, 0x4000]) if rng.chance(1, 4) else rng.below(30)
         ctx.case(("wireo", tuple(ls), None if origin is None else tuple(origin), c["canon"]), sample=c)
         eval_case(ctx, c)
     for _ in range(n(2500)):
